@@ -1,6 +1,6 @@
 PROP = {
     "shared_groups": "also runs the neighbouring groups whose code can break this property: e2e-pause (described under C18); e2e-stop (described under C10)",
-    "groups": ["proc", "errtell", "cfgtimeout", "e2e-hang", "e2e-pause", "e2e-stop"],
+    "groups": ["proc", "errtell", "e2e-hang", "e2e-pause", "e2e-stop", "cfgtimeout"],
     "rule": "proc: for each of the three generated nets (send, recv, hash) the numbers of goroutines, channels, "
             "defer-closed channels, range loops and the sorted channel capacities counted by an independent name-based "
             "go/ast walk vs the numbers the extracted model computes from the generated skeleton; proc_faults: 'every return "
@@ -42,6 +42,9 @@ PROP = {
         "break/continue/inlined return inside such a loop = skip the rest of the iteration, all goroutines of a net "
         "exist from the start (the net starts where the main function creates its context; what it does before is kept "
         "apart as <net>_main_prelude), deferred calls count as registered from the start",
+        "cfgtimeout: go/cmd/gen/cfgtimeout.go reads the shape of sendConfig / recvConfig / newTransfer / getNewTimeout / the relay's "
+        "recvConfig and the json tag as values; encoding/json is not modelled (a present integer member arrives as written, an absent one "
+        "leaves the field); /repo/trzsz/export_verif_cfgtimeout.go (build tag verif)",
         "errtell: the error classes of the interpreter (errType \"\", fail, FAIL, EXIT, other) and the hand-written mapping "
         "of the harness's errType strings onto them (ocaml/m_errtell.ml, go/cmd/gen/errtell.go etTypeOf); "
         "/repo/trzsz/export_verif_errtell.go (build tag verif)",
